@@ -32,7 +32,11 @@ pub fn h_policy_trigger() {
 /// Threshold kernel: one `adjust` from an arbitrary valid configuration (threshold 100 * 2^j, j decided at its source;
 /// allocated bytes and adjustment percent are solver variables). One inductive step covers workloads of any length.
 fn policy_adjust(jmax: u8) {
-    let j = any_below(jmax + 1) as u32;
+    policy_adjust_range(0, jmax)
+}
+
+fn policy_adjust_range(jmin: u8, jmax: u8) {
+    let j = (jmin + any_below(jmax - jmin + 1)) as u32;
     let thr: u64 = 100u64 << j;
     let allocated = any_u64();
     assume(allocated < (1u64 << 62)); // stated bound: beyond it `threshold << 1` overflows usize
@@ -64,6 +68,16 @@ pub fn h_policy_adjust_small() {
 #[no_mangle]
 pub fn h_policy_adjust_mid() {
     policy_adjust(24);
+}
+
+#[no_mangle]
+pub fn h_policy_adjust_hi1() {
+    policy_adjust_range(25, 40);
+}
+
+#[no_mangle]
+pub fn h_policy_adjust_hi2() {
+    policy_adjust_range(41, 57);
 }
 
 #[no_mangle]
